@@ -1523,6 +1523,74 @@ package graphql
 //@   trusted
 //@   functional
 //@   assigns nothing
+//@ func IsCompositeType
+//@   trusted
+//@   functional
+//@   assigns nothing
+
+// FragmentsOnCompositeTypes: a type condition is reported exactly when its type is known and not composite,
+// and the error is located at the type condition (C18).
+//@ func FragmentsOnCompositeTypesRule$1
+//@   props C02 C18
+//@   nosafety
+//@   ensures !typeis(p.Node, "*ast.InlineFragment") ==> calls("reportError") == 0 && calls("Type") == 0
+//@   ensures calls("Type") == 1 && as(p.Node, "*ast.InlineFragment").TypeCondition != nil && !isnil(lastresult("Type")) && !IsCompositeType_0(lastresult("Type")) ==> calls("reportError") == 1
+//@   ensures calls("Type") == 1 && (as(p.Node, "*ast.InlineFragment").TypeCondition == nil || isnil(lastresult("Type")) || IsCompositeType_0(lastresult("Type"))) ==> calls("reportError") == 0
+//@   at call reportError: assert arg0 == context && len(arg2) == 1 && typeis(arg2[0], "*ast.Named") && as(arg2[0], "*ast.Named") == node.TypeCondition
+//@   ensures result0 == visitor.ActionNoChange
+//@ func FragmentsOnCompositeTypesRule$2
+//@   props C02 C18
+//@   nosafety
+//@   ensures !typeis(p.Node, "*ast.FragmentDefinition") ==> calls("reportError") == 0 && calls("Type") == 0
+//@   ensures calls("Type") == 1 && !isnil(lastresult("Type")) && !IsCompositeType_0(lastresult("Type")) ==> calls("reportError") == 1
+//@   ensures calls("Type") == 1 && (isnil(lastresult("Type")) || IsCompositeType_0(lastresult("Type"))) ==> calls("reportError") == 0
+//@   at call reportError: assert arg0 == context && len(arg2) == 1 && typeis(arg2[0], "*ast.Named") && as(arg2[0], "*ast.Named") == node.TypeCondition
+//@   ensures result0 == visitor.ActionNoChange
+
+// ArgumentsOfCorrectType: an argument with a known definition is reported exactly when its literal is not valid
+// for the definition's type (the literal judged is the argument's own, against the definition's own type); the
+// error is located at the literal. DefaultValuesOfCorrectType: likewise for a variable's default against the
+// variable's type, plus one report for a default on a non-null variable.
+//@ func ValidationContext.Argument
+//@   trusted
+//@   assigns nothing
+//@ func ValidationContext.InputType
+//@   trusted
+//@   assigns nothing
+//@ func ArgumentsOfCorrectTypeRule$1
+//@   props C02 C05 C18
+//@   nosafety
+//@   ensures !typeis(p.Node, "*ast.Argument") ==> calls("reportError") == 0 && calls("isValidLiteralValue") == 0
+//@   ensures calls("Argument") == 1 && lastresult("Argument") == nil ==> calls("reportError") == 0 && calls("isValidLiteralValue") == 0
+//@   ensures calls("Argument") == 1 && lastresult("Argument") != nil ==> calls("isValidLiteralValue") == 1
+//@   at call isValidLiteralValue: assert arg0 == lastresult("Argument").Type && arg1 == argAST.Value
+//@   ensures calls("isValidLiteralValue") == 1 ==> (lastresult("isValidLiteralValue") <==> calls("reportError") == 0) && calls("reportError") <= 1
+//@   at call reportError: assert arg0 == context && len(arg2) == 1 && arg2[0] == argAST.Value
+//@   ensures result0 == visitor.ActionSkip
+//@ func DefaultValuesOfCorrectTypeRule$1
+//@   props C02 C05 C18
+//@   nosafety
+//@   ensures !typeis(p.Node, "*ast.VariableDefinition") ==> calls("reportError") == 0 && calls("isValidLiteralValue") == 0
+//@   ensures typeis(p.Node, "*ast.VariableDefinition") ==> calls("isValidLiteralValue") == 1 && calls("InputType") == 1
+//@   at call isValidLiteralValue: assert arg0 == lastresult("InputType") && arg1 == varDefAST.DefaultValue
+//@   ensures calls("isValidLiteralValue") == 1 && !lastresult("isValidLiteralValue") && !isnil(as(p.Node, "*ast.VariableDefinition").DefaultValue) ==> calls("reportError") >= 1
+//@   ensures calls("isValidLiteralValue") == 1 && lastresult("isValidLiteralValue") && !typeis(lastresult("InputType"), "*graphql.NonNull") ==> calls("reportError") == 0
+//@   ensures calls("InputType") == 1 && typeis(lastresult("InputType"), "*graphql.NonNull") && !isnil(as(p.Node, "*ast.VariableDefinition").DefaultValue) ==> calls("reportError") >= 1
+//@   ensures isnil(as(p.Node, "*ast.VariableDefinition").DefaultValue) ==> calls("reportError") == 0
+//@   at call reportError: assert arg0 == context && len(arg2) == 1 && arg2[0] == defaultValue
+//@   ensures result0 == visitor.ActionSkip
+
+// VariablesAreInputTypes: a variable definition is reported exactly when its type is known and not an input
+// type; the error is located at the type reference.
+//@ func VariablesAreInputTypesRule$1
+//@   props C02 C18
+//@   nosafety
+//@   ensures !typeis(p.Node, "*ast.VariableDefinition") ==> calls("reportError") == 0 && calls("typeFromAST") == 0
+//@   at call typeFromAST: assert arg1 == node.Type
+//@   ensures calls("typeFromAST") == 1 && !isnil(lastresult("typeFromAST")) && !IsInputType_0(lastresult("typeFromAST")) ==> calls("reportError") == 1
+//@   ensures calls("typeFromAST") == 1 && (isnil(lastresult("typeFromAST")) || IsInputType_0(lastresult("typeFromAST"))) ==> calls("reportError") == 0
+//@   at call reportError: assert arg0 == context && len(arg2) == 1 && arg2[0] == node.Type
+//@   ensures result0 == visitor.ActionNoChange
 //@ func ValidationContext.Type
 //@   trusted
 //@   assigns nothing
